@@ -4,6 +4,7 @@ A `Facts` object holds every exported body of one crate plus ADT / impl / const 
 wraps one body and offers CFG helpers. Nothing here executes the analysed code.
 """
 import json
+import os
 import re
 from collections import defaultdict
 
@@ -369,21 +370,48 @@ class Body:
         return self._preds
 
     def reachable(self, start=0, removed_edges=(), removed_blocks=()):
-        """set of blocks reachable from `start` along normal edges"""
+        """set of blocks reachable from `start` along normal edges. Edges that contradict a constant just assigned on the path
+        (`r = Err(..); .. match branch(r) { Continue => .. }`, `ok = false; .. if ok {..}`) are not followed: see _ValueTracker."""
         removed_edges = set(removed_edges)
         removed_blocks = set(removed_blocks)
         if start in removed_blocks:
             return set()
+        vt = self.value_tracker()
+        if vt is None:
+            seen = {start}
+            stack = [start]
+            while stack:
+                b = stack.pop()
+                for s in self.blocks[b].term.succs():
+                    if s in seen or s in removed_blocks or (b, s) in removed_edges:
+                        continue
+                    seen.add(s)
+                    stack.append(s)
+            return seen
+        init = vt.initial()
+        seen_states = {(start, init)}
         seen = {start}
-        stack = [start]
+        stack = [(start, init)]
         while stack:
-            b = stack.pop()
-            for s in self.blocks[b].term.succs():
-                if s in seen or s in removed_blocks or (b, s) in removed_edges:
+            b, st = stack.pop()
+            for s, st2 in vt.step(b, st):
+                if s in removed_blocks or (b, s) in removed_edges:
                     continue
+                if (s, st2) in seen_states:
+                    continue
+                seen_states.add((s, st2))
                 seen.add(s)
-                stack.append(s)
+                stack.append((s, st2))
         return seen
+
+    def value_tracker(self):
+        if not hasattr(self, "_vt"):
+            self._vt = None
+            if not os.environ.get("VERIF_PLAIN_REACH"):
+                vt = _ValueTracker(self)
+                if vt.tracked:
+                    self._vt = vt
+        return self._vt
 
     def live_blocks(self):
         if self._reach is None:
@@ -424,6 +452,164 @@ class Body:
             t = b.term
             out.append("    %r;  // %s%s" % (t, t.line, (" " + t.exp) if t.exp else ""))
         return "\n".join(out)
+
+
+TRACKED_ADTS = {"std::result::Result": {0: "Ok", 1: "Err"}, "std::option::Option": {0: "None", 1: "Some"},
+                "std::ops::ControlFlow": {0: "Continue", 1: "Break"}, "core::result::Result": {0: "Ok", 1: "Err"},
+                "core::option::Option": {0: "None", 1: "Some"}, "core::ops::ControlFlow": {0: "Continue", 1: "Break"}}
+_BRANCH = re.compile(r"ops::Try>::branch$|ops::try_trait::Try>::branch$|::Try::branch$")
+
+
+class _ValueTracker:
+    """Constant propagation of booleans and of Option / Result / ControlFlow variants along a path, for plain locals that are never
+    mutably borrowed. Only locals in the backward slice of a switch operand are tracked. Abstract values: None (unknown), ("b", 0|1),
+    ("v", adt, variant index), ("d", discriminant value). Sound by construction: any assignment that is not understood resets to unknown,
+    and an unknown value follows every edge."""
+
+    def __init__(self, body):
+        self.body = body
+        blocks = body.blocks
+        # locals whose address is taken mutably (or by raw pointer) are never tracked
+        self.untrackable = set()
+        defs = defaultdict(list)
+        for b in blocks:
+            if b.cleanup:
+                continue
+            for s in b.stmts:
+                if s.k == "a":
+                    if s.rv.k in ("ref", "rawptr") and s.rv.place is not None and (s.rv.k == "rawptr" or s.rv.j.get("bk") == "mut"):
+                        if not any(x == "*" for x in s.rv.place.proj):
+                            self.untrackable.add(s.rv.place.local)
+                    if s.lhs.is_local():
+                        defs[s.lhs.local].append(("rv", s.rv))
+                    else:
+                        if not any(x == "*" for x in s.lhs.proj):
+                            defs[s.lhs.local].append(("partial", None))
+                elif s.k == "sd" and s.lhs is not None:
+                    defs[s.lhs.local].append(("partial", None))
+            t = b.term
+            if t.k == "call" and t.dest is not None:
+                defs[t.dest.local].append(("call", t) if t.dest.is_local() else ("partial", None))
+            if t.k == "yield" and t.dest is not None:
+                defs[t.dest.local].append(("partial", None))
+        self.defs = defs
+        # backward slice from switch operands
+        work = []
+        for b in blocks:
+            if b.cleanup:
+                continue
+            t = b.term
+            if t.k == "switch" and t.discr is not None and t.discr.place is not None and t.discr.place.is_local():
+                work.append(t.discr.place.local)
+        rel = set()
+        useful = False
+        while work:
+            l = work.pop()
+            if l in rel or l in self.untrackable or l <= body.arg_count and l != 0 and False:
+                continue
+            rel.add(l)
+            for kind, d in defs.get(l, ()):
+                if kind == "rv":
+                    if d.k == "use" and d.ops[0].place is not None and d.ops[0].place.is_local():
+                        work.append(d.ops[0].place.local)
+                    elif d.k == "un" and d.j.get("op") == "Not" and d.ops[0].place is not None and d.ops[0].place.is_local():
+                        work.append(d.ops[0].place.local)
+                    elif d.k == "discr" and d.place is not None and d.place.is_local():
+                        work.append(d.place.local)
+                    if (d.k == "use" and d.ops[0].const_int() in (0, 1)) or (d.k == "agg" and d.j.get("ak") == "adt" and d.j.get("def") in TRACKED_ADTS):
+                        useful = True
+                elif kind == "call":
+                    if any(_BRANCH.search(n or "") for n in d.names()) and d.args and d.args[0].place is not None and d.args[0].place.is_local():
+                        work.append(d.args[0].place.local)
+        self.tracked = sorted(rel) if useful else []
+        self.index = {l: i for i, l in enumerate(self.tracked)}
+
+    def initial(self):
+        return frozenset()
+
+    def _val(self, vals, op):
+        if op.place is not None:
+            if op.place.is_local() and op.place.local in self.index:
+                return vals.get(op.place.local)
+            return None
+        c = op.const_int()
+        if c in (0, 1) and op.const is not None:
+            ty = self.body.tys[op.const["ty"]] if "ty" in op.const else None
+            if ty == "bool":
+                return ("b", c)
+        return None
+
+    def step(self, bidx, st):
+        blk = self.body.blocks[bidx]
+        vals = dict(st)
+        ix = self.index
+
+        def put(l, v):
+            if v is None:
+                vals.pop(l, None)
+            else:
+                vals[l] = v
+        for s in blk.stmts:
+            if s.k == "a":
+                l = s.lhs.local
+                if l not in ix:
+                    continue
+                if not s.lhs.is_local():
+                    if not any(x == "*" for x in s.lhs.proj):
+                        put(l, None)
+                    continue
+                rv = s.rv
+                v = None
+                if rv.k == "use":
+                    v = self._val(vals, rv.ops[0])
+                elif rv.k == "un" and rv.j.get("op") == "Not":
+                    a = self._val(vals, rv.ops[0])
+                    if a and a[0] == "b":
+                        v = ("b", 1 - a[1])
+                elif rv.k == "agg" and rv.j.get("ak") == "adt" and rv.j.get("def") in TRACKED_ADTS:
+                    v = ("v", rv.j["def"].split("::")[-1], rv.j.get("vidx"))
+                elif rv.k == "discr" and rv.place is not None and rv.place.is_local() and rv.place.local in ix:
+                    a = vals.get(rv.place.local)
+                    if a and a[0] == "v":
+                        v = ("d", a[2])
+                put(l, v)
+            elif s.k == "sd" and s.lhs is not None and s.lhs.local in ix:
+                put(s.lhs.local, None)
+            elif s.k == "dead" and s.local in ix:
+                put(s.local, None)      # out of scope: its value cannot matter any more (keeps the state space small)
+        t = blk.term
+        if t.k == "call":
+            if t.dest is not None and t.dest.local in ix:
+                v = None
+                if t.dest.is_local() and any(_BRANCH.search(n or "") for n in t.names()) and t.args and t.args[0].place is not None:
+                    a = self._val(vals, t.args[0])
+                    if a and a[0] == "v":
+                        if a[1] == "Result":
+                            v = ("v", "ControlFlow", 0 if a[2] == 0 else 1)
+                        elif a[1] == "Option":
+                            v = ("v", "ControlFlow", 0 if a[2] == 1 else 1)
+                put(t.dest.local, v)
+            # moved-out arguments are dead afterwards
+            for a_ in t.args:
+                if a_.kind == "m" and a_.place is not None and a_.place.is_local() and a_.place.local in vals:
+                    vals.pop(a_.place.local, None)
+            st2 = frozenset(vals.items())
+            return [(s_, st2) for s_ in t.succs()]
+        if t.k == "yield" and t.dest is not None and t.dest.local in ix:
+            put(t.dest.local, None)
+        if t.k == "switch" and t.discr is not None:
+            a = self._val(vals, t.discr)
+            if t.discr.kind == "m" and t.discr.place is not None and t.discr.place.is_local():
+                vals.pop(t.discr.place.local, None)
+            st2 = frozenset(vals.items())
+            if a is not None and a[0] in ("b", "d"):
+                n = a[1]
+                hit = [b_ for v_, b_ in t.vals if v_ == n]
+                tgt = hit[0] if hit else t.otherwise
+                return [(tgt, st2)] if tgt is not None else []
+            return [(s_, st2) for s_ in t.succs()]
+        st2 = frozenset(vals.items())
+        return [(s_, st2) for s_ in t.succs()]
 
 
 class Facts:
